@@ -18,6 +18,7 @@ func init() {
 			{ID: "C02-R4", Doc: "machine stop marks tasks lost atomically", Run: c02r4},
 			{ID: "C12-R4", Doc: "a task whose machine was lost is read through the re-evaluating reader, not reported as a missing resource: only a task without a location is an error (shared)", Run: c12r4},
 			{ID: "C02-R6", Doc: "the failure of a dependency read is never wrapped fatal: the dependency is recomputed", Run: c02r6},
+			{ID: "C19-R6", Doc: "no executor or evaluator function returns holding a lock it took: recovery never blocks on a leaked lock (shared)", Run: c19r6},
 			{ID: "C02-R5", Doc: "scan re-evaluates before reopening", Run: c02r5},
 			{ID: "C15-R5", Doc: "retry reader resumes at the delivered offset (shared)", Run: c15r5},
 			{ID: "C07-R2", Doc: "checksum discipline (shared)", Run: c07r2},
